@@ -126,6 +126,12 @@ func (fw *FileWriter) openExistingFile() error {
 	headerBuf := make([]byte, FileHeaderSize)
 	if _, err := io.ReadFull(file, headerBuf); err != nil {
 		file.Close()
+		if errors.Is(err, io.EOF) || errors.Is(err, io.ErrUnexpectedEOF) {
+			// Shorter than a file header: the creation of the file was
+			// interrupted before anything could be stored in it. Start it again,
+			// otherwise the swamp could never be written to.
+			return fw.createNewFile()
+		}
 		return err
 	}
 
@@ -139,13 +145,68 @@ func (fw *FileWriter) openExistingFile() error {
 	fw.blockCount = fw.header.BlockCount
 	fw.entryCount = fw.header.EntryCount
 
-	// Seek to end for appending
-	if _, err := file.Seek(0, io.SeekEnd); err != nil {
+	info, err := file.Stat()
+	if err != nil {
+		file.Close()
+		return err
+	}
+	size := info.Size()
+	dataStart := fw.header.DataStartOffset()
+	if size < dataStart {
+		// The swamp name after the header is incomplete: the creation of the
+		// file was interrupted, so it cannot contain a block. Start it again.
+		file.Close()
+		return fw.createNewFile()
+	}
+
+	// A crash while a block was being appended leaves an incomplete block at
+	// the end of the file. New blocks must not be written behind it (the reader
+	// stops there), so cut the file back to the end of the last complete block.
+	end, err := lastCompleteBlockEnd(file, dataStart, size)
+	if err != nil {
+		file.Close()
+		return err
+	}
+	if end < size {
+		if err := file.Truncate(end); err != nil {
+			file.Close()
+			return err
+		}
+		if err := file.Sync(); err != nil {
+			file.Close()
+			return err
+		}
+	}
+
+	// Position at the end of the last complete block for appending
+	if _, err := file.Seek(end, io.SeekStart); err != nil {
 		file.Close()
 		return err
 	}
 
 	return nil
+}
+
+// lastCompleteBlockEnd walks the block headers from start and returns the offset
+// just past the last block that is completely contained in the first size bytes.
+func lastCompleteBlockEnd(file *os.File, start, size int64) (int64, error) {
+	pos := start
+	headerBuf := make([]byte, BlockHeaderSize)
+	for pos+BlockHeaderSize <= size {
+		if _, err := file.ReadAt(headerBuf, pos); err != nil {
+			return 0, err
+		}
+		var bh BlockHeader
+		if err := bh.Deserialize(headerBuf); err != nil {
+			return 0, err
+		}
+		next := pos + BlockHeaderSize + int64(bh.CompressedSize)
+		if next > size {
+			break
+		}
+		pos = next
+	}
+	return pos, nil
 }
 
 // WriteEntry adds an entry to the buffer and flushes if necessary
